@@ -135,8 +135,7 @@ Fixpoint fix_start (fuel : nat) (real : bool) (f : list Z) (start : Z) : result 
     end
   end.
 
-(* _APEv2Data.__init__ seen through a public call: IOError is converted to apev2.error (MutagenError);
-   BytesIO raises ValueError for a negative absolute seek *)
+(* _APEv2Data.__init__ seen through a public call: IOError is converted to apev2.error (MutagenError) *)
 Definition ape_locate (real : bool) (f : list Z) : result (option loc) :=
   match find_metadata real f with
   | FNone => Ok None
@@ -152,7 +151,7 @@ Definition ape_locate (real : bool) (f : list Z) : result (option loc) :=
       let end_ := p + 32 in
       let data := end_ - size in
       let header := if Z.land flags HAS_HEADER =? 0 then data else data - 32 in
-      if header <? 0 then Raise (if real then EMutagen else EValue) else
+      if header <? 0 then Raise EMutagen else          (* raise APEBadItemError("tag size larger than the file") *)
       match fix_start (S (length f)) real f header with
       | Raise e => Raise e
       | Ok start =>
